@@ -229,3 +229,46 @@ c.loop(('config_files', None), [Clause('files_parsed_in_order_before_anything_el
     z3.BoolVal('config.py::parse_config' not in _order(x) and
                'config.py::finalize' not in _order(x))))])
 register(c)
+
+
+# ---- which defaults are recorded as operative (C07) ----------------------------------------------
+def representable(v):
+  return sym.ufun('literally_representable', sym.Val, sym.BoolS)(v)
+
+
+c = Contract('config.py::_is_literally_representable', ['C06', 'C07'], kind='assumed')
+c.param('value', KVal)
+c.result = KBool
+c.ensure('functional', lambda x: x.result.e == representable(x.a.value.e))
+c.raises_only_listed = True
+c.assumptions.append('_is_literally_representable(v) is a predicate of v (repr + re-parse; it '
+                     'no longer raises after fix ecf8852)  [bounded: bC06]')
+register(c)
+
+c = Contract('config.py::_get_default_configurable_parameter_values', ['C07'])
+c.param('fn', KVal)
+c.param('allowlist', KOpt(StrList))
+c.param('denylist', KOpt(StrList))
+c.result = ParamDict
+c.local_kinds = {'arg_vals': ParamDict}
+
+
+def _excluded(x, s):
+  d = KWD(x.a.fn.e)
+  return z3.Or(z3.And(_truthy(x.a.allowlist), z3.Not(_in(x.a.allowlist, s))),
+               z3.And(_truthy(x.a.denylist), _in(x.a.denylist, s)),
+               z3.Not(representable(d.val[s])))
+
+
+c.ensure('defaults_minus_unlisted_denylisted_and_unrepresentable', lambda x: sym.forall(
+    [s_], z3.And(
+        x.result.dom[s_] == z3.And(KWD(x.a.fn.e).dom[s_], z3.Not(_excluded(x, s_))),
+        z3.Implies(x.result.dom[s_], x.result.val[s_] == KWD(x.a.fn.e).val[s_]))))
+c.raises_only_listed = True
+c.loop(('list(arg_vals)', None), [Clause('processed_keys_filtered', lambda x, k: sym.forall(
+    [s_], z3.And(
+        x.env.arg_vals.dom[s_] == z3.And(KWD(x.a.fn.e).dom[s_], z3.Not(z3.And(
+            x.it.idx(s_) < k, _excluded(x, s_)))),
+        x.env.arg_vals.val[s_] == KWD(x.a.fn.e).val[s_]),
+    patterns=[x.env.arg_vals.dom[s_]]))])
+register(c)
